@@ -637,9 +637,11 @@ def sync_jobs(
         exclude = []
     elif not isinstance(exclude, list):
         exclude = [exclude]
-    exclude.append(src.FN_STATE_POINT)
+    # The exclude entries are regular expressions (matched with re.match), so
+    # the reserved file names must be escaped and anchored.
+    exclude.append(re.escape(src.FN_STATE_POINT) + "$")
     if doc_sync != DocSync.COPY:
-        exclude.append(src.FN_DOCUMENT)
+        exclude.append(re.escape(src.FN_DOCUMENT) + "$")
 
     if type(dry_run) is _FileModifyProxy:
         proxy = dry_run
